@@ -5,7 +5,8 @@
 # classes (wrong lengths, bad keys, long contexts, wrong prefixes) on top.
 CFG = dict(
     translate=['slhdsa'],
-    gen_lemmas=['gen/SlhdsaParams.v regenerated from the composite literals and newParams calls of internal/signature/slhdsa/slhdsa.go; C16_parameter_sets_wellformed and C16_derived_values are re-checked against it'],
+    gen_lemmas=['gen/SlhdsaParams.v regenerated from the composite literals and newParams calls of internal/signature/slhdsa/slhdsa.go; C16_parameter_sets_wellformed and C16_derived_values are re-checked against it',
+                'proofs/ConstsTieC16.v: the twelve regenerated sets (table x hash family), their public-key length 2n and the signature length verifyInternal checks equal the twelve literal rows of FIPS 205 Table 2 (model/SlhdsaFips.v: n, h, d, h\', a, k, lg_w, m, pk bytes, sig bytes, section-11 family); Table 2 is consistent with the standard\'s formulas; all twelve satisfy fips_wf'],
     n={'quick': 340, 'thorough': 8000},
     oracle=True,
     reference=True,
@@ -16,10 +17,12 @@ CFG = dict(
          'distinct = distinct (operation, parameter set, mutation label, outcome) strings; the number of expensive cases is '
          'bounded by a hash-call budget, see harness/p/c16/gen.go',
     trusted=['stdlib oracle ops used: hash sha256, hash sha512, shake256, hmac sha256, hmac sha512 (Go crypto/sha256, crypto/sha512, crypto/sha3, crypto/hmac)',
-             'model/SlhdsaParams.v is a hand copy of the six parameter tables of slhdsa.go until the translator regenerates it'],
-    assumptions=['theorems assume of the six hash functions only their output length (hashes_ok); '
+             'model/SlhdsaFips.v is a hand transcription of the FIPS 205 text (Algorithms 2-20, 22, 24, Table 1, Table 2, sections 9.1 and 11); its fidelity to the printed standard is by reading'],
+    assumptions=['structural theorems assume of the six hash functions only their output length (hashes_ok); '
                  'C16_twelve_sets_* derives it from the digest lengths of SHA-256/SHA-512/SHAKE256/HMAC',
-                 'rejection of modified signatures/messages/keys is not a theorem (it needs collision resistance); it is checked by the correspondence and the direct oracle'],
+                 'the FIPS 205 equalities assume fips_wf of the parameter record (proved for the twelve sets) and that the family over address records agrees pointwise with a family over 32-byte ADRS strings (hashes_agree; proved for hash.go\'s three instantiations against FIPS 205 section 11 from the SHA-256 / SHA-512 digest lengths); no premise on any input',
+                 'rejection of a modified signature is proved as a reduction: two accepted signatures with the same digest selectors are equal, or exhibit a same-tweak collision of F/H/T_l on different equal-length inputs, or a WOTS+ message switch (chain walking); '
+                 'modifications that change the digest selectors (R, message, PK.root) rest on target-subset resilience of H_msg / PRF secrecy and are checked by the correspondence and the direct oracle, not proved'],
 )
 MANIFEST = dict(
     text='Theorems in coq/props/C16.v about an executable Gallina model of internal/signature/slhdsa that follows the Go code '
@@ -31,13 +34,30 @@ MANIFEST = dict(
          '(value equation, all widths <= 25 despite the wrapping uint32 accumulator); toInt/toByte are big-endian and inverse; the WOTS+ checksum '
          'digits encode sum(w-1-m_i) exactly; chain composition; WOTS+, XMSS (every leaf index), FORS (every digest) and hypertree completeness as '
          'coded, address threading included; the threaded functions equal FIPS-205-shaped ones with explicit addresses; derived len1/len2/len and '
-         'key/signature sizes per set. The model is tied to the code by running the extracted model over a stdlib hash oracle and tink-go on the '
+         'key/signature sizes per set. STRETCH: model/SlhdsaFips.v transcribes FIPS 205 from the text of the standard independently of the code and of the '
+         'implementation model (unbounded integers; toInt/toByte/base_2b = Alg 2-4; ADRS = 32-byte string with the Table 1 member functions as byte splices, '
+         'passed by value; Alg 5-20, 22, 24 line by line with the standard\'s slices, h/d, ceilings, mod 2^(h-h/d); section 11 with ADRS^c, Trunc_n, MGF1; Table 2 '
+         'as literals) and the theorems prove, for every parameter record satisfying fips_wf, every pair of agreeing hash families and ALL byte strings as '
+         'inputs: signInternal = slh_sign_internal (Alg 19), verifyInternal = slh_verify_internal (Alg 20), keygen = slh_keygen_internal (Alg 18) with the '
+         'section 9.1 encoding, sign/verify = slh_sign/slh_verify (Alg 22/24) around the key decodings, tink_sign/tink_verify = output prefix around those; '
+         'toByte, toInt (mod 2^64), base_2b (b <= 25), len1/len2/len, every ADRS setter/getter and the 22-byte compression equal the standard\'s; hash.go\'s three '
+         'instantiations equal FIPS 205 section 11; the twelve regenerated parameter sets equal the twelve literal rows of Table 2 (with pk/sig byte counts) and '
+         'satisfy fips_wf, so all twelve sets as instantiated by hash.go compute FIPS 205 (C16_twelve_sets_compute_fips_205) and their key pairs are consistent '
+         '(C16_twelve_sets_keypair_consistency). A signature of the wrong length is rejected by verifyInternal, verify and tink_verify; tink_verify accepts exactly '
+         'prefix || s with s accepted by verify. Modified signatures: two accepted (message, signature) pairs under one key whose digests select the same FORS '
+         'indices / tree / leaf have equal bodies, or exhibit a same-tweak collision of F, H or T_l (different inputs, equal positive length) or a WOTS+ message '
+         'switch, which is chain walking (C16_two_accepted_signatures_reduction, C16_modified_signature_reduction at the three layers, '
+         'C16_wots_switch_is_chain_walking; the toy example shows a real collision). The model is tied to the code by running the extracted model over a stdlib hash oracle and tink-go on the '
          'same inputs for all twelve sets: public key from seeds byte-identical, deterministic/randomized/Tink-API signatures byte-identical, '
          'accept/reject of genuine, modified and wrong-length signatures, messages, contexts and keys identical; the model also accepts the '
-         'reference implementation\'s known-answer signatures.',
-    note='Trusted: Coq kernel, ExtrOcamlBasic extraction + OCaml glue, the Go harness and the stdlib oracle (Go crypto/sha256, sha512, sha3, hmac). '
-         'The model is hand-written (tie = correspondence on the explored inputs; the parameter tables are to be regenerated by the translator). '
-         'Rejection of modified inputs rests on hash collision resistance and is checked, not proved. In the quick tier the s sets are covered by '
+         'reference implementation\'s known-answer signatures. Keys CREATED by Tink (keyset.Manager.AddNewKeyFromParameters, seeds and id on the tape) are '
+         'checked for every set and both variants: PK.root = root of the NAMED set for the seeds (internal deterministic key generation and, for the f sets, the model), '
+         'sizes per Table 2, and the generated f-set keys sign and verify through the Tink API and the internal Verify.',
+    note='Trusted: Coq kernel, ExtrOcamlBasic extraction + OCaml glue, the Go harness and the stdlib oracle (Go crypto/sha256, sha512, sha3, hmac); '
+         'the reading of the FIPS 205 text behind model/SlhdsaFips.v. '
+         'The implementation model is hand-written (tie = correspondence on the explored inputs; the parameter tables are regenerated by the translator and tied to Table 2). '
+         'The collision / switch conclusions are existential statements proved constructively (closed under the global context): the proof is the extractor. '
+         'Rejection of modifications that change the digest selectors (R, message, PK.root) is checked, not proved. In the quick tier the s sets are covered by '
          'verification of Tink signatures and one randomly chosen s-set key generation; s-set signing is compared in the thorough tier only '
          '(about 2-4 million oracle calls each). uint32 overflow of node indices (i<<1, (i<<a)+idx) is not modelled: it cannot occur for hp, a < 32.',
     technique='Coq proof (induction over chain length, tree height, climb steps, hypertree layers; arithmetic by lia/nia) about an executable Gallina '
